@@ -1,9 +1,14 @@
 // C16, non-verbose logging: "every method record corresponds to a delivery to that state" - a state whose class
 // defines no callback (or not that callback) is delivered nothing, so the non-verbose logger records nothing for it
-// (verbose logging is what records those).  The react family and query are function templates in the library's
-// default stubs and are recorded for every state in every logging build; they are not judged here.
+// (verbose logging is what records those), and a callback the class does define is recorded once per delivery.  The
+// react family and query are function templates in the library's default stubs and are recorded for every state in
+// every logging build; they are not judged here.
 // States without injections that define nothing / only some callbacks cannot be followed by the behavioural monitor
-// (it sees a machine through its callbacks), hence this small dedicated monitor.
+// (it sees a machine through its callbacks), hence this small dedicated monitor.  The state classes are assembled from
+// one mix-in per callback: for each of the eight state callbacks X there is a state defining only X and a state
+// defining everything but X (so a record keyed on the wrong callback shows either as a missing or as a spurious
+// record), two states define nothing; the root head comes in four variants, variant v defining the callbacks whose
+// number has bit v set (any two callbacks differ in some variant), plan outcome callbacks included.
 
 #define FFSM2_ENABLE_LOG_INTERFACE
 #define FFSM2_ENABLE_PLANS
@@ -17,81 +22,139 @@ namespace {
 struct Ev { int v; };
 
 using M = ffsm2::MachineT<ffsm2::Config::ManualActivation>;
-struct Head; struct Bare0; struct OnlyUpdate; struct OnlyLife; struct Bare3;
-using FSM = M::Root<Head, Bare0, OnlyUpdate, OnlyLife, Bare3>;
+using ffsm2::Method;
 
-unsigned g_delivered[16][16];   // [state id or 15 for the root][method]: callbacks that really ran
+constexpr unsigned NS = 18;          // states
+constexpr unsigned ROOT = 31;
+unsigned g_delivered[32][16];        // [state id or ROOT][method]: callbacks that really ran
+bool g_succeed = false, g_fail = false;
 
-void ran(unsigned sid, ffsm2::Method m) { ++g_delivered[sid][static_cast<unsigned>(m)]; }
+void ran(unsigned sid, Method m) { ++g_delivered[sid][static_cast<unsigned>(m)]; }
 
-struct Head : FSM::State {};                       // defines nothing
-struct Bare0 : FSM::State {};
-struct OnlyUpdate : FSM::State {
-	void update(FullControl& c) { ran(1, ffsm2::Method::UPDATE); if (g_succeed) c.succeed(); }
-	static bool g_succeed;
+// the judged callbacks, numbered 0..9 (8, 9: the plan outcome callbacks of the head)
+constexpr Method JUDGED[10] = {Method::ENTRY_GUARD, Method::ENTER, Method::REENTER, Method::PRE_UPDATE, Method::UPDATE,
+							   Method::POST_UPDATE, Method::EXIT_GUARD, Method::EXIT, Method::PLAN_SUCCEEDED, Method::PLAN_FAILED};
+constexpr uint32_t ALL8 = 0xFF;
+constexpr uint32_t stateMask(unsigned sid) { return sid < 8 ? 1u << sid : sid < 16 ? ALL8 & ~(1u << (sid - 8)) : 0u; }
+constexpr uint32_t headMask(unsigned hv) {
+	return ((((0 + 1) >> hv) & 1) << 0) | ((((1 + 1) >> hv) & 1) << 1) | ((((2 + 1) >> hv) & 1) << 2) | ((((3 + 1) >> hv) & 1) << 3) | ((((4 + 1) >> hv) & 1) << 4) |
+		   ((((5 + 1) >> hv) & 1) << 5) | ((((6 + 1) >> hv) & 1) << 6) | ((((7 + 1) >> hv) & 1) << 7) | ((((8 + 1) >> hv) & 1) << 8) | ((((9 + 1) >> hv) & 1) << 9);
+}
+
+// one mix-in per callback; the primary template defines nothing
+template <bool ON, typename TB, unsigned SID> struct MxEntryGuard : TB {};
+template <typename TB, unsigned SID> struct MxEntryGuard<true, TB, SID> : TB { void entryGuard(typename TB::GuardControl&) { ran(SID, Method::ENTRY_GUARD); } };
+template <bool ON, typename TB, unsigned SID> struct MxEnter : TB {};
+template <typename TB, unsigned SID> struct MxEnter<true, TB, SID> : TB { void enter(typename TB::PlanControl&) { ran(SID, Method::ENTER); } };
+template <bool ON, typename TB, unsigned SID> struct MxReenter : TB {};
+template <typename TB, unsigned SID> struct MxReenter<true, TB, SID> : TB { void reenter(typename TB::PlanControl&) { ran(SID, Method::REENTER); } };
+template <bool ON, typename TB, unsigned SID> struct MxPreUpdate : TB {};
+template <typename TB, unsigned SID> struct MxPreUpdate<true, TB, SID> : TB { void preUpdate(typename TB::FullControl&) { ran(SID, Method::PRE_UPDATE); } };
+template <bool ON, typename TB, unsigned SID> struct MxUpdate : TB {};
+template <typename TB, unsigned SID> struct MxUpdate<true, TB, SID> : TB {
+	void update(typename TB::FullControl& c) { ran(SID, Method::UPDATE); if (SID != ROOT) { if (g_succeed) c.succeed(); if (g_fail) c.fail(); } }
 };
-bool OnlyUpdate::g_succeed = false;
-struct OnlyLife : FSM::State {
-	void enter(PlanControl&) { ran(2, ffsm2::Method::ENTER); }
-	void exit(PlanControl&) { ran(2, ffsm2::Method::EXIT); }
-};
-struct Bare3 : FSM::State {};
+template <bool ON, typename TB, unsigned SID> struct MxPostUpdate : TB {};
+template <typename TB, unsigned SID> struct MxPostUpdate<true, TB, SID> : TB { void postUpdate(typename TB::FullControl&) { ran(SID, Method::POST_UPDATE); } };
+template <bool ON, typename TB, unsigned SID> struct MxExitGuard : TB {};
+template <typename TB, unsigned SID> struct MxExitGuard<true, TB, SID> : TB { void exitGuard(typename TB::GuardControl&) { ran(SID, Method::EXIT_GUARD); } };
+template <bool ON, typename TB, unsigned SID> struct MxExit : TB {};
+template <typename TB, unsigned SID> struct MxExit<true, TB, SID> : TB { void exit(typename TB::PlanControl&) { ran(SID, Method::EXIT); } };
+template <bool ON, typename TB, unsigned SID> struct MxPlanSucceeded : TB {};
+template <typename TB, unsigned SID> struct MxPlanSucceeded<true, TB, SID> : TB { void planSucceeded(typename TB::FullControl&) { ran(SID, Method::PLAN_SUCCEEDED); } };
+template <bool ON, typename TB, unsigned SID> struct MxPlanFailed : TB {};
+template <typename TB, unsigned SID> struct MxPlanFailed<true, TB, SID> : TB { void planFailed(typename TB::FullControl&) { ran(SID, Method::PLAN_FAILED); } };
 
-constexpr uint32_t bit(ffsm2::Method m) { return 1u << static_cast<unsigned>(m); }
-// which callbacks each class defines itself
-const uint32_t DEFINES[4] = {0, bit(ffsm2::Method::UPDATE), bit(ffsm2::Method::ENTER) | bit(ffsm2::Method::EXIT), 0};
-const uint32_t TEMPLATED = bit(ffsm2::Method::PRE_REACT) | bit(ffsm2::Method::REACT) | bit(ffsm2::Method::POST_REACT) | bit(ffsm2::Method::QUERY);
+template <uint32_t MASK, typename TB, unsigned SID>
+using Mixed =
+	MxPlanFailed<(MASK >> 9 & 1) != 0, MxPlanSucceeded<(MASK >> 8 & 1) != 0, MxExit<(MASK >> 7 & 1) != 0, MxExitGuard<(MASK >> 6 & 1) != 0,
+	MxPostUpdate<(MASK >> 5 & 1) != 0, MxUpdate<(MASK >> 4 & 1) != 0, MxPreUpdate<(MASK >> 3 & 1) != 0, MxReenter<(MASK >> 2 & 1) != 0,
+	MxEnter<(MASK >> 1 & 1) != 0, MxEntryGuard<(MASK & 1) != 0, TB, SID>, SID>, SID>, SID>, SID>, SID>, SID>, SID>, SID>, SID>;
+
+template <unsigned HV> struct Hd;
+template <unsigned HV, unsigned SID> struct St;
+template <unsigned HV> struct Types {
+	using FSM = M::Root<Hd<HV>, St<HV, 0>, St<HV, 1>, St<HV, 2>, St<HV, 3>, St<HV, 4>, St<HV, 5>, St<HV, 6>, St<HV, 7>, St<HV, 8>,
+						St<HV, 9>, St<HV, 10>, St<HV, 11>, St<HV, 12>, St<HV, 13>, St<HV, 14>, St<HV, 15>, St<HV, 16>, St<HV, 17>>;
+};
+template <unsigned HV> struct Hd : Mixed<headMask(HV), typename Types<HV>::FSM::State, ROOT> {};
+template <unsigned HV, unsigned SID> struct St : Mixed<stateMask(SID), typename Types<HV>::FSM::State, SID> {};
+
+constexpr uint32_t bit(Method m) { return 1u << static_cast<unsigned>(m); }
+const uint32_t TEMPLATED = bit(Method::PRE_REACT) | bit(Method::REACT) | bit(Method::POST_REACT) | bit(Method::QUERY);
+uint32_t definesBits(uint32_t mask) { uint32_t b = 0; for (unsigned j = 0; j < 10; ++j) if (mask >> j & 1) b |= bit(JUDGED[j]); return b; }
 
 vh::Reporter g_rep;
 vh::Stats g_stats;
 vh::Args g_args;
 
-const char* mname(ffsm2::Method m) { return ffsm2::methodName(m); }
+const char* mname(Method m) { const char* n = ffsm2::methodName(m); return n ? n : "?"; }
 
-struct Logger : FSM::Logger {
-	using Context = FSM::Logger::Context;
-	unsigned records[16][16] = {};
-	void recordMethod(const Context&, const ffsm2::StateID origin, const ffsm2::Method method) override {
-		const unsigned sid = origin == ffsm2::INVALID_STATE_ID ? 15u : origin;
-		++records[sid < 16 ? sid : 14][static_cast<unsigned>(method)];
+template <unsigned HV>
+struct Logger : Types<HV>::FSM::Logger {
+	using Context = typename Types<HV>::FSM::Logger::Context;
+	unsigned records[32][16] = {};
+	void recordMethod(const Context&, const ffsm2::StateID origin, const Method method) override {
+		const unsigned sid = origin == ffsm2::INVALID_STATE_ID ? ROOT : origin;
+		if (sid != ROOT && sid >= NS) { g_rep.report("C16", "method-record-for-unknown-state", "record for state id " + std::to_string(unsigned(origin))); return; }
+		++records[sid][static_cast<unsigned>(method) & 15];
 		g_stats.add("method_records");
-		const uint32_t defined = sid == 15 ? 0u : DEFINES[sid & 3];
+		const uint32_t defined = definesBits(sid == ROOT ? headMask(HV) : stateMask(sid));
 		if (!((defined | TEMPLATED) & bit(method)))
 			g_rep.report("C16", std::string("method-record-for-state-without-callback|") + mname(method),
-						 "non-verbose logging recorded (" + std::to_string(unsigned(origin)) + "," + mname(method) + ") although the class of that state does not define the callback");
+						 "non-verbose logging recorded (" + std::to_string(unsigned(origin)) + "," + mname(method) + ") although the class of that state does not define the callback (head variant " + std::to_string(HV) + ")");
 	}
 };
+
+template <unsigned HV>
+void run() {
+	using FSM = typename Types<HV>::FSM;
+	memset(g_delivered, 0, sizeof g_delivered);
+	g_succeed = g_fail = false;
+	vh::Rng rng(g_args.seed * 7919 + 5 + HV * 104729);
+	Logger<HV> logger;
+	{
+		typename FSM::Instance m(&logger);
+		const unsigned steps = g_args.thorough() ? 40000 : 4000;
+		for (unsigned i = 0; i < steps; ++i) {
+			if (!m.isActive()) { m.enter(); continue; }
+			switch (rng.below(13)) {
+			case 0: case 1: case 2: m.update(); break;
+			case 3: { Ev e{1}; m.react(e); break; }
+			case 4: { Ev e{0}; static_cast<const typename FSM::Instance&>(m).query(e); break; }
+			case 5: case 6: m.changeTo(static_cast<ffsm2::StateID>(rng.below(NS))); break;
+			case 7: m.immediateChangeTo(static_cast<ffsm2::StateID>(rng.below(NS))); break;
+			case 8: { const ffsm2::StateID o = static_cast<ffsm2::StateID>(rng.below(2) ? m.activeStateId() : rng.below(NS)); const ffsm2::StateID d = static_cast<ffsm2::StateID>(rng.below(NS)); m.plan().change(o, d); break; }
+			case 9: g_succeed = !g_succeed; g_fail = false; m.succeed(m.activeStateId()); break;
+			case 10: m.fail(m.activeStateId()); break;
+			case 11: g_fail = rng.below(3) == 0; g_succeed = false; break;
+			default: if (rng.below(6) == 0) m.exit(); break;
+			}
+			g_stats.add("operations");
+		}
+		if (m.isActive()) m.exit();
+	}
+	// the converse on the callbacks that exist: as many records as deliveries
+	for (unsigned s = 0; s <= NS; ++s) {
+		const unsigned sid = s == NS ? ROOT : s;
+		const uint32_t mask = sid == ROOT ? headMask(HV) : stateMask(sid);
+		for (unsigned j = 0; j < 10; ++j) {
+			if (!(mask >> j & 1)) continue;
+			const unsigned k = static_cast<unsigned>(JUDGED[j]);
+			if (g_delivered[sid][k]) g_stats.add2("defined_callbacks_delivered", mname(JUDGED[j]));
+			if (logger.records[sid][k] != g_delivered[sid][k])
+				g_rep.report("C16", std::string("records!=deliveries|defined-callback|") + mname(JUDGED[j]),
+							 (sid == ROOT ? std::string("root head variant ") + std::to_string(HV) : "state " + std::to_string(sid)) + " " + mname(JUDGED[j]) + ": " + std::to_string(g_delivered[sid][k]) + " deliveries, " + std::to_string(logger.records[sid][k]) + " records");
+		}
+	}
+}
 
 }
 
 int main(int argc, char** argv) {
 	g_args = vh::parseArgs(argc, argv);
-	vh::Rng rng(g_args.seed * 7919 + 5);
-	Logger logger;
-	FSM::Instance m(&logger);
-	const unsigned steps = g_args.thorough() ? 20000 : 2000;
-	for (unsigned i = 0; i < steps; ++i) {
-		if (!m.isActive()) { m.enter(); continue; }
-		switch (rng.below(12)) {
-		case 0: case 1: case 2: m.update(); break;
-		case 3: { Ev e{1}; m.react(e); break; }
-		case 4: { Ev e{0}; static_cast<const FSM::Instance&>(m).query(e); break; }
-		case 5: case 6: m.changeTo(static_cast<ffsm2::StateID>(rng.below(4))); break;
-		case 7: m.immediateChangeTo(static_cast<ffsm2::StateID>(rng.below(4))); break;
-		case 8: { const ffsm2::StateID o = static_cast<ffsm2::StateID>(rng.below(4)); const ffsm2::StateID d = static_cast<ffsm2::StateID>(rng.below(4)); m.plan().change(o, d); break; }
-		case 9: OnlyUpdate::g_succeed = !OnlyUpdate::g_succeed; m.succeed(m.activeStateId()); break;
-		case 10: m.fail(m.activeStateId()); break;
-		default: if (rng.below(4) == 0) m.exit(); break;
-		}
-		g_stats.add("operations");
-	}
-	if (m.isActive()) m.exit();
-	// the converse on the callbacks that exist: as many records as deliveries
-	for (unsigned sid = 0; sid < 4; ++sid)
-		for (unsigned k = 0; k < 16; ++k)
-			if ((DEFINES[sid] >> k & 1) && logger.records[sid][k] != g_delivered[sid][k])
-				g_rep.report("C16", "records!=deliveries|defined-callback", "state " + std::to_string(sid) + " method " + std::to_string(k) + ": " + std::to_string(g_delivered[sid][k]) + " deliveries, " + std::to_string(logger.records[sid][k]) + " records");
+	run<0>(); run<1>(); run<2>(); run<3>();
 	g_stats.emit();
-	printf("@SAMPLE {\"program\":\"lognv\",\"states\":\"bare, only-update, only-enter/exit, bare; bare head\"}\n");
+	printf("@SAMPLE {\"program\":\"lognv\",\"states\":\"only-X and all-but-X for each of the 8 state callbacks, 2 bare; 4 root head variants\"}\n");
 	return 0;
 }
